@@ -14,6 +14,7 @@ import (
 	"runtime/pprof"
 	"sort"
 	"strconv"
+	"time"
 )
 
 var profStop = func() {}
@@ -76,6 +77,18 @@ func main() {
 		f, _ := os.Create(pf)
 		pprof.StartCPUProfile(f)
 		profStop = func() { pprof.StopCPUProfile(); f.Close() }
+	}
+	debug.SetMemoryLimit(20 << 30)                // soft: the collector works harder instead of the process growing towards the machine's memory
+	if hp := os.Getenv("VCHECK_HEAP"); hp != "" { // debugging aid: heap profile every 30 s
+		go func() {
+			for {
+				time.Sleep(30 * time.Second)
+				if f, err := os.Create(hp); err == nil {
+					pprof.WriteHeapProfile(f)
+					f.Close()
+				}
+			}
+		}()
 	}
 	c := newCtx(prop, tier, seed)
 	if replay != "" {
